@@ -108,6 +108,17 @@ def gen_client_ops(rng, thorough=False):
         g["pdu"] = good_reply(rng, g)
         steps.append(g)
     scs.append({"id": len(scs), "kind": "client_ops", "queue": 16, "steps": steps, "tag": "c18-argument-errors"})
+    # (a') the application may use one list for several calls: the values pass through unchanged every time
+    steps = [{"op": "enable", "peer": "reply"}]
+    for fc, vals in ((15, [1, 0, 1, 1, 0, 0, 1, 0, 1]), (16, [0x1234, 0xABCD, 7])):
+        for rep in range(3):
+            o = op(fc, 1, 10 * rep, len(vals), vals)
+            o["reuse"] = True
+            o["pdu"] = good_reply(rng, o)
+            steps.append(o)
+    scs.append({"id": len(scs), "kind": "client_ops", "queue": 16, "steps": steps, "tag": "c18-list-reuse"})
+    for n in ((1, 2, 7, 16) if thorough else (1, 3)):
+        scs.append({"id": len(scs), "kind": "client_queue", "queue": n, "steps": [], "tag": f"c18-queue-depth-{n}"})
     # (c) not connected / connection lost / after destroy
     steps = []
     for _ in range(4):
